@@ -18,7 +18,8 @@ with common.build_lock():
     if not ok:
         print(out[-4000:])
         sys.exit(2)
-    ok, failed, out = common.lake_build(["ScsiVerif"])
+    props = sorted("ScsiVerif.Props." + f.stem for f in (common.LEAN / "ScsiVerif" / "Props").glob("*.lean"))
+    ok, failed, out = common.lake_build(["ScsiVerif"] + props)
     print(out[-1500:])
     # a failing property module is reported by the property's own check, not by setup
     print("setup done (library build %s)" % ("ok" if ok else "has failing property modules: %s" % failed))
